@@ -9,15 +9,15 @@ use serde_json::Value;
 use std::collections::BTreeMap;
 
 /// Curated templates: diverge at an escape, inside a group, at a group boundary, at a multi-byte character (also at two
-/// characters sharing their first UTF-8 byte),
+/// characters sharing their first UTF-8 byte), after an unbalanced literal parenthesis,
 /// or are prefixes of one another. Patterns are produced from them exactly as rules produce them.
 pub const CURATED: &[&str] = &[
-    "/", "/a", "/a/b", "/a.b", "/a-b", "/a/@id", "/a/@id/b", "/a/@a", "/a/@lang", "/a/@lang/x", "/é", "/éx", "/é/@id", "/a(b)", "/èx",
+    "/", "/a", "/a/b", "/a.b", "/a-b", "/a/@id", "/a/@id/b", "/a/@w", "/a/@lang", "/a/@lang/x", "/é", "/éx", "/é/@id", "/a)/@id/b", "/a)/@id/c", "/èx",
 ];
 /// Wider pool for the random histories.
 pub const TEMPLATES: &[&str] = &[
     "/", "/a", "/a/b", "/a.b", "/a-b", "/a/@id", "/a/@id/b", "/a/@a", "/a/@lang", "/a/@lang/x", "/é", "/éx", "/é/@id", "/a(b)", "/A/b", "/a/@slug", "/a/@slug/@id", "/a/@any", "/a/@mix",
-    "/a/@up", "/foo/@bad", "/foo/@bad/x", "/a/@pet", "/a+b", "/a[b", "/a\\b", "/a/@id-@b", "/p/@a-@b", "/日本/@id", "/日本", "/a/b/c/d", "/a/b/c/e", "@any", "@lang/x", "/è", "/èx", "/日月", "/ü/@id", "/ö/@id",
+    "/a/@up", "/foo/@bad", "/foo/@bad/x", "/a/@pet", "/a+b", "/a[b", "/a\\b", "/a/@id-@b", "/p/@a-@b", "/日本/@id", "/日本", "/a/b/c/d", "/a/b/c/e", "@any", "@lang/x", "/è", "/èx", "/日月", "/ü/@id", "/ö/@id", "/a)/@id/b", "/a)/@id/c", "/a)/@id", "/a)/@a", "/:)/@slug/x", "/:)/@slug/y", "/a(/@id/b", "/a(/@id/c", "/a/@w", "/a/@w/x", "/a/@d", "@w.example", "@d/x",
 ];
 
 pub fn pattern_of(template: &str) -> String {
@@ -394,7 +394,7 @@ pub fn run(ctx: &Ctx) -> Report {
         "case = history over insert(p,id,v) / remove(id) / retain(pred) / cache(limit,level) on RegexTreeMap and UniqueRegexTreeMap in both case modes, patterns produced from templates exactly as rules produce them \
          (escaped literal text interleaved with (?:marker expr), incl. multi-byte text, escaped parentheses and a non-compiling marker); oracle after every step: sorted find(s) == sorted { v | (p,id,v) live and ^p$ matches s } over instantiations / near misses / case swaps, \
          len() == |live|, get(p) == values stored under p, iter() == all live values, remove(id) returns the stored value, and through the read-only hook: every node prefix is a string prefix of all patterns below it, no empty leaf, one leaf per pattern, case flag kept; \
-         exhaustive part: every subset of size <=3 (quick) / <=4 (thorough) of 15 curated patterns x every insertion order x every removal subset x both case modes, followed by a re-insertion and a replacement; \
+         exhaustive part: every subset of size <=3 (quick) / <=4 (thorough) of 16 curated patterns x every insertion order x every removal subset x both case modes, followed by a re-insertion and a replacement; \
          non-trivial = tree depth >= 2 and some haystack matched by some but not all live values; distinct by case hash",
     );
     rep.assume("domain exclusions O1 (empty pattern) and O2 (parenthesis inside a character class); ids are unique among live values, as rule ids are");
@@ -405,7 +405,7 @@ pub fn run(ctx: &Ctx) -> Report {
         "exhaustive-small-scope",
         n,
         true,
-        &format!("{n} (subset, insertion order, removal subset, case flag) combinations over the 15 curated patterns {:?}", CURATED),
+        &format!("{n} (subset, insertion order, removal subset, case flag) combinations over the 16 curated patterns {:?}", CURATED),
         |i| Some(cases[i as usize].clone()),
         |c| {
             let mut o = check(c);
